@@ -65,11 +65,11 @@ def check(ctx):
     # mechanisms this property rests on (see shared.py): a change there is reported here as well
     from . import shared as _sh
 
-    ctx.run(_sh.path_tokenisers)
-    ctx.run(_sh.gaf_reader)
-    ctx.run(_sh.tag_parser)
-    ctx.run(_sh.graph_loader)
-    ctx.run(_sh.cli_layer, "gaftools.cli.realign")
+    ctx.run_shared(_sh.path_tokenisers)
+    ctx.run_shared(_sh.gaf_reader)
+    ctx.run_shared(_sh.tag_parser)
+    ctx.run_shared(_sh.graph_loader)
+    ctx.run_shared(_sh.cli_layer, "gaftools.cli.realign")
 
 
 def r12_1(ctx, m, schema):
